@@ -28,6 +28,17 @@ RAW = [
     "a := <>; 1",
     "x := {d: 1, c: 2, b: 3, a: 4}; y := x.bear({e: 5}); [y.keys, y.ancestors.len, x == {a: 4, b: 3, c: 2, d: 1}, x.items]",
     "f := {|a, b: 1, *c| 1}; g := {|**o| 1}; 1",
+    # comparisons whose elements' own == raises / differs: the outcome must not depend on which entry is compared first
+    "bad := {'==: m{|o| raise Err.new(\"boom\")}}; nil.try.{|u| {a: bad, b: 1} == {a: bad, b: 2}}.A",
+    "bad := {'==: m{|o| raise Err.new(\"boom\")}}; nil.try.{|u| {a: bad, b: 1, c: 2, d: 3, e: 4} == {a: bad, b: 2, c: 3, d: 4, e: 5}}.A",
+    "bad := {'==: m{|o| raise Err.new(\"boom\")}}; nil.try.{|u| %{1: bad, 2: 1, 3: 1, 4: 1} == %{1: bad, 2: 2, 3: 2, 4: 2}}.A",
+    "bad := {'==: m{|o| raise Err.new(\"boom\")}}; nil.try.{|u| [bad, 1, 2] == [bad, 2, 3]}.A",
+    "bad := {'==: m{|o| raise Err.new(\"boom\")}}; nil.try.{|u| %{[1]: bad, [2]: 1, [3]: 1} == %{[1]: bad, [2]: 2, [3]: 2}}.A",
+    "loud := {'==: m{|o| say(\"cmp\"); false}}; [{a: loud, b: 1, c: 2, d: 3} == {a: loud, b: 2, c: 3, d: 4}, {a: 1, b: loud, c: loud} != {a: 2, b: loud, c: loud}]",
+    "noisy := {|k| {'==: m{|o| say(k); true}}}; {a: noisy(1), b: noisy(2), c: noisy(3), d: noisy(4)} == {a: 0, b: 0, c: 0, d: 0}",
+    "noisy := {|k| {'==: m{|o| say(k); true}}}; %{1: noisy(1), 2: noisy(2), 3: noisy(3), 4: noisy(4)} == %{1: 0, 2: 0, 3: 0, 4: 0}",
+    "o := {d: 1, c: 2, b: 3, a: 4}; [o.values, o.items, o.A, o.S, o.repr, o.M.keys, o@{|k, v| v}, o.keys.sum, o$([]){|acc, kv| [*acc, kv]}]",
+    "m := %{'d: 1, 'c: 2, 'b: 3, 'a: 4}; [m.values, m.items, m.A, m.S, m.repr, m.O.keys, m@{|k, v| v}, m$([]){|acc, kv| [*acc, kv]}]",
 ]
 
 
